@@ -286,6 +286,75 @@ def keys_part(rep):
     rep.part('names in every derive position parse as TypeScript (tier B corpus)', obligations=ob)
 
 
+def type_name_part(rep, quick):
+    """Tier B: the *type identifier* position.  Corpus item R1 carries `#[ts(rename = <symbolic string>)]` on the container: the name
+    after `type` in decl(), ident() and the head of name() must be an IdentifierName, and the rename string itself whenever that is
+    one.  The derive writes the string verbatim -> known finding F18 for strings that are not identifiers."""
+    from . import tyres
+    tyres.setup()
+    ob = di = 0
+    for n in ((1, 2) if quick else (1, 2, 3)):
+        ex = Explorer()
+        A = [z3.BitVec(f'a{i}', CH) for i in range(n)]
+        for c in A:
+            ex.solver.add(z3.Or([c == ord(x) for x in 'aA_$0- ".<']))
+
+        def h(ctx):
+            r = tyres.Resolver(['T'], sym={'sym_a': A, 'sym_b': o('Bee')})
+            m = tyres.machine(ctx, r)
+            try:
+                return ('ok', list(m.call('<R1<T> as TS>::decl', []).cs), list(m.call('<R1<T> as TS>::ident', []).cs), list(m.call('<R1<T> as TS>::name', []).cs))
+            except Panic as e:
+                return ('panic', str(e), None, None)
+        try:
+            res = ex.run(h)
+        except Unsupported as e:
+            rep.inconclusive.append(f'type name {n}: {e}')
+            continue
+        rep.absorb(dict(paths=ex.paths, nontrivial=ex.nontrivial, queries=ex.queries, solver_s=ex.solver_s))
+        is_ident = z3.And([is_id_start(A[0])] + [is_id_cont(c) for c in A[1:]])
+        for pc, (k, decl, ident, name) in res:
+            ob += 1
+            if k == 'panic':
+                rep.violations.append({'what': f'R1::decl panics: {decl}', 'witness': {}, 'key': 'typename/panic'})
+                continue
+            head = decl[5:5 + n] if decl[:5] == o('type ') else None
+            verbatim = head is not None and all(is_sym(x) and x.eq(a) for x, a in zip(head, A)) and ident == A and name[:n] == A
+            if not verbatim:
+                # the derive no longer writes the string verbatim: the emitted name must then be an identifier on its own
+                text = tyres.show_rope([c for c in decl if not is_sym(c)])
+                rep.inconclusive.append(f'type name: decl() head is not the rename string verbatim ({text[:40]!r}); extend props/c04.py type_name_part')
+                continue
+            if ex.check(pc + [z3.Not(is_ident)]) == z3.sat:
+                mdl = ex.model()
+                rep.known_hits.setdefault('F18-container-rename-not-identifier', {'kind': 'typename', 'item': tyres.G['corpus']['R1']['src'], 'name': show(A, mdl),
+                                                                                 'engine_result': show(decl, mdl).replace('{', '{')[:60] if False else show([c for c in decl if not isinstance(c, interp.Hole)], mdl)[:60]})
+            di += 1
+    rep.absorb(dict(obligations=ob, discharged=di))
+    rep.part('type identifier position (tier B corpus R1, symbolic container rename)', obligations=ob)
+
+
+def native_type_name(name):
+    """decl() of `#[ts(rename = <name>)] struct S { x: i32 }` through the real derive, natively"""
+    import tempfile, shutil
+    scratch = tempfile.mkdtemp(prefix='tsrs-verif-c04t-')
+    try:
+        os.makedirs(os.path.join(scratch, 'src'))
+        shutil.copy(os.path.join(REPO, 'Cargo.lock'), os.path.join(scratch, 'Cargo.lock'))
+        with open(os.path.join(scratch, 'Cargo.toml'), 'w') as fh:
+            fh.write(f'[package]\nname = "c04probe"\nversion = "0.0.0"\nedition = "2021"\n[workspace]\n[dependencies]\n'
+                     f'ts-rs = {{ path = "{os.path.join(REPO, "ts-rs")}" }}\n')
+        lit = '"' + name.replace('\\', '\\\\').replace('"', '\\"').replace('\n', '\\n') + '"'
+        with open(os.path.join(scratch, 'src', 'main.rs'), 'w') as fh:
+            fh.write('use ts_rs::TS;\n#[derive(TS)] #[ts(rename = %s)] struct S { x: i32 }\nfn main() { println!("{}", S::decl()); }\n' % lit)
+        p = build.run(['cargo', 'run', '--offline', '-q', '--target-dir', os.path.join(build.CACHE, 'target-c04probe')], cwd=scratch)
+        if p.returncode != 0:
+            return None
+        return p.stdout.rstrip('\n')
+    finally:
+        shutil.rmtree(scratch, ignore_errors=True)
+
+
 def literals_part(rep, quick):
     """Tier B: string literals the derive builds from names (variant names under every tagging, with the name a symbolic string):
     each must be a closed literal that decodes to the name. The derive interpolates them unescaped -> known finding F15."""
@@ -401,6 +470,7 @@ def main():
     try:
         literals_part(rep, quick)
         keys_part(rep)
+        type_name_part(rep, quick)
     except Unsupported as e:
         rep.inconclusive.append(f'literals_part: {e}')
     NA, NU = (4, 3) if quick else (6, 4)
@@ -437,6 +507,13 @@ def main():
             # reproduced when the literal as emitted does not decode to the name: here, when it is emitted verbatim although it
             # contains a character that needs escaping
             if not (nat is not None and nat == want and any(ch in w['name'] for ch in '"\\\n')):
+                del rep.known_hits[fid]
+                rep.inconclusive.append(f'witness of known finding {fid} does not reproduce natively: {w}')
+            continue
+        if w.get('kind') == 'typename':
+            nat = native_type_name(w['name'])
+            w['native'] = nat
+            if not (nat is not None and nat.startswith('type ' + w['name'] + ' = ') and not re.fullmatch(r'[A-Za-z_$][\w$]*', w['name'])):
                 del rep.known_hits[fid]
                 rep.inconclusive.append(f'witness of known finding {fid} does not reproduce natively: {w}')
             continue
